@@ -47,6 +47,10 @@ func (p *simpleExpressionPlanner) tagsV2Planner() (shared.SQLRequestPlanner, err
 		return nil, err
 	}
 
+	if p.cond == nil {
+		return &AllTagsRequestPlanner{}, nil
+	}
+
 	var res shared.SQLRequestPlanner = &AttrConditionPlanner{
 		Main:           NewInitIndexPlanner(false),
 		Terms:          p.termIdx,
